@@ -1,0 +1,41 @@
+//go:build verif
+
+package svg
+
+// Read-only accessors used by the C07 correspondence harness (/verif/go/cmd/c07).
+
+// VerifC07ParsePreserveAspectRatio exposes parsePreserveAspectRatio.
+func VerifC07ParsePreserveAspectRatio(s string) (xPosition, yPosition string, none, slice bool) {
+	p := parsePreserveAspectRatio(s)
+	return p.xPosition, p.yPosition, p.none, p.slice
+}
+
+// VerifC07ParseValue exposes parseValue.
+func VerifC07ParseValue(s string) (Value, error) { return parseValue(s) }
+
+// VerifC07ParseOpacity exposes parseOpacity.
+func VerifC07ParseOpacity(s string) (Fl, error) { return parseOpacity(s) }
+
+// VerifC07ParseURLFragment exposes parseURLFragment.
+func VerifC07ParseURLFragment(s string) string { return parseURLFragment(s) }
+
+// VerifC07ParseURL exposes parseURL: the re-serialised URL and the error flag.
+func VerifC07ParseURL(s string) (str string, isErr bool) {
+	u, err := parseURL(s)
+	if err != nil {
+		return "", true
+	}
+	return u.String(), false
+}
+
+// VerifC07ParseFontWeight exposes parseFontWeight.
+func VerifC07ParseFontWeight(s string) int { return parseFontWeight(s) }
+
+// VerifC07ParseOrientation exposes parseOrientation (unit code and error flag).
+func VerifC07ParseOrientation(s string) (Value, error) { return parseOrientation(s) }
+
+// VerifC07NewPainter exposes newPainter: reference id, validity and error flag.
+func VerifC07NewPainter(s string) (refID string, valid bool, isErr bool) {
+	p, err := newPainter(s)
+	return p.refID, p.valid, err != nil
+}
